@@ -65,3 +65,7 @@ PROPS.update({
 })
 
 PROPS['C10'] = _e2e(['store', 'mix'], ['C10'], ['outcome', 'ncalls'])
+
+for _b in ('fs', 'fsenc', 'fsreopen'):
+    PROPS['C09']['e2e'].append(dict(profile='hit', backend=_b, n_quick=120, n_thorough=3000))
+    PROPS['C05']['e2e'].append(dict(profile='store', backend=_b, n_quick=80, n_thorough=2000))
